@@ -56,7 +56,13 @@ fn decode_rsa_private_key(bytes: &[u8]) -> Result<rsa::RsaPrivateKey, paseto_cor
         }
     }
 
-    rsa::RsaPrivateKey::from_pkcs1_der(der).map_err(|_| PasetoError::InvalidKey)
+    let key = rsa::RsaPrivateKey::from_pkcs1_der(der).map_err(|_| PasetoError::InvalidKey)?;
+
+    // A key that cannot be written back (its primes are not coprime, so there is no CRT
+    // coefficient) would make every later `encode` - Display, id, wrap - fail.
+    rsa::pkcs1::EncodeRsaPrivateKey::to_pkcs1_der(&key).map_err(|_| PasetoError::InvalidKey)?;
+
+    Ok(key)
 }
 
 impl version::Version for V1 {
